@@ -342,6 +342,16 @@ class HarnessPolicyFactory(pythia.PolicyFactory):
 
   def __call__(self, problem_statement, algorithm, policy_supporter,
                study_name):
+    plan = self.plan
+    if algorithm == 'HARNESS':
+      # a 'factory:<Exc>' slot makes the *factory* fail (outside the policy's
+      # suggest(), i.e. outside PythiaServicer's own try/except)
+      idx = plan.suggest_calls
+      spec = plan.deliveries[idx] if idx < len(plan.deliveries) else 0
+      if isinstance(spec, str) and spec.startswith('factory:'):
+        plan.suggest_calls += 1
+        plan.log.append(('factory', study_name, spec))
+        raise EXC[spec.split(':', 1)[1]]('injected factory fault #%d' % idx)
     if algorithm in ('HARNESS', 'RANDOM_SEARCH') or self._fallback is None:
       # RANDOM_SEARCH is what CheckTrialEarlyStoppingState asks for.
       return HarnessPolicy(self.plan, policy_supporter, study_name)
